@@ -32,6 +32,10 @@ const (
 	pvNode    // a dsl.Expression: role parent | left | right
 	pvClosure // function literal with its environment
 	pvString
+	pvList   // elements of a literal slice / array (a lookup table of the package)
+	pvStruct // a literal struct value: field name -> value
+	pvMap    // a literal map: keys in literal order
+	pvType   // the resolved type of the parent expression (abstracted to: integer / other)
 )
 
 type pval struct {
@@ -42,6 +46,17 @@ type pval struct {
 	lit  *ast.FuncLit
 	env  *penv
 	info *types.Info
+	// literal tables
+	list   []pval
+	fields map[string]pval
+	keys   []pval
+}
+
+func (v pval) same(o pval) bool {
+	if v.k == pvOp && o.k == pvOp {
+		return v.s == o.s // operators are identified by name
+	}
+	return v.k == o.k && v.k != pvUnknown && v.s == o.s && v.n == o.n && v.b == o.b
 }
 
 type penv struct {
@@ -78,6 +93,7 @@ const (
 	ctlNext pctl = iota
 	ctlReturn
 	ctlBreak
+	ctlContinue
 )
 
 type pinterp struct {
@@ -91,12 +107,28 @@ type pinterp struct {
 	// both ways: choices[i] is the outcome taken for the i-th such condition of this run
 	choices []bool
 	asked   int
+	// "int" / "other": what the resolved type of the parent expression is taken to be ("" = not modelled)
+	resultKind string
+	globals    map[types.Object]pval
+	// the call being evaluated is used for its value (assigned or passed on), not as a statement
+	wantValue bool
 }
 
 func (pi *pinterp) fail(what string) {
 	if pi.unknown == "" {
 		pi.unknown = what
 	}
+}
+
+// mkOp: the operator constant with that name, with its numeric value (tables may be indexed by it).
+func (pi *pinterp) mkOp(name string) pval {
+	v := pval{k: pvOp, s: name}
+	if p := pi.c.Pkg("pkg/dsl"); p != nil {
+		if k, ok := p.Types.Scope().Lookup(name).(*types.Const); ok && k.Val().Kind() == constant.Int {
+			v.n, _ = constant.Int64Val(k.Val())
+		}
+	}
+	return v
 }
 
 func (pi *pinterp) opOf(role string) string {
@@ -143,6 +175,9 @@ func (pi *pinterp) eval(info *types.Info, e ast.Expr, env *penv) pval {
 			if v, ok := env.get(o); ok {
 				return v
 			}
+			if o.Parent() != nil && o.Pkg() != nil && o.Parent() == o.Pkg().Scope() {
+				return pi.global(o)
+			}
 		case *types.Nil:
 			return pval{}
 		}
@@ -155,23 +190,42 @@ func (pi *pinterp) eval(info *types.Info, e ast.Expr, env *penv) pval {
 		// package-qualified constant
 		if o, ok := info.Uses[x.Sel].(*types.Const); ok {
 			if nt := core.NamedOf(o.Type()); nt != nil && nt.Obj().Name() == "BinaryOperator" {
-				return pval{k: pvOp, s: o.Name()}
+				return pi.mkOp(o.Name())
 			}
 			if o.Val().Kind() == constant.Int {
 				n, _ := constant.Int64Val(o.Val())
 				return pval{k: pvInt, n: n}
 			}
 		}
+		if o, ok := info.Uses[x.Sel].(*types.Const); ok && o.Val().Kind() == constant.String {
+			return pval{k: pvString, s: constant.StringVal(o.Val())}
+		}
+		if o, ok := info.Uses[x.Sel].(*types.Var); ok && !o.IsField() && o.Parent() != nil && o.Pkg() != nil && o.Parent() == o.Pkg().Scope() {
+			return pi.global(o)
+		}
 		base := pi.eval(info, x.X, env)
+		if base.k == pvStruct {
+			if fv, ok := base.fields[x.Sel.Name]; ok {
+				return fv
+			}
+			return pval{}
+		}
+		if base.k == pvNode && base.s == "parent" && x.Sel.Name == "ResolvedType" && pi.resultKind != "" {
+			return pval{k: pvType, s: pi.resultKind}
+		}
 		if base.k == pvNode {
 			switch x.Sel.Name {
 			case "Left", "Right":
 				if base.s == "parent" {
 					return pval{k: pvNode, s: strings.ToLower(x.Sel.Name)}
 				}
+			case "Expression":
+				if base.s == "parent" {
+					return pval{k: pvNode, s: "operand"}
+				}
 			case "Operator":
 				if op := pi.opOf(base.s); op != "" {
-					return pval{k: pvOp, s: op}
+					return pi.mkOp(op)
 				}
 			}
 		}
@@ -212,6 +266,30 @@ func (pi *pinterp) eval(info *types.Info, e ast.Expr, env *penv) pval {
 			return pval{}
 		}
 		l, r := pi.eval(info, x.X, env), pi.eval(info, x.Y, env)
+		if l.k == pvString && r.k == pvString {
+			switch x.Op {
+			case token.ADD:
+				return pval{k: pvString, s: l.s + r.s}
+			case token.EQL:
+				return pval{k: pvBool, b: l.s == r.s}
+			case token.NEQ:
+				return pval{k: pvBool, b: l.s != r.s}
+			}
+		}
+		if x.Op == token.ADD && (l.k == pvString || r.k == pvString) {
+			// text with a part the domain does not know (a type name, an identifier)
+			ls, rs := "?", "?"
+			if l.k == pvString {
+				ls = l.s
+			}
+			if r.k == pvString {
+				rs = r.s
+			}
+			return pval{k: pvString, s: ls + rs}
+		}
+		if (l.k == pvOp && r.k == pvInt) || (l.k == pvInt && r.k == pvOp) {
+			l.k, r.k = pvInt, pvInt // an operator compared with a number (bounds test of a table indexed by it)
+		}
 		if l.k == pvInt && r.k == pvInt {
 			switch x.Op {
 			case token.LSS:
@@ -250,8 +328,31 @@ func (pi *pinterp) eval(info *types.Info, e ast.Expr, env *penv) pval {
 		}
 	case *ast.FuncLit:
 		return pval{k: pvClosure, lit: x, env: env, info: info}
+	case *ast.CompositeLit:
+		return pi.composite(info, x, info.TypeOf(x), env)
+	case *ast.IndexExpr:
+		base := pi.eval(info, x.X, env)
+		idx := pi.eval(info, x.Index, env)
+		switch base.k {
+		case pvList:
+			if (idx.k == pvInt || idx.k == pvOp) && idx.n >= 0 && int(idx.n) < len(base.list) {
+				return base.list[idx.n]
+			}
+		case pvMap:
+			for i, k := range base.keys {
+				if k.same(idx) {
+					return base.list[i]
+				}
+			}
+			if idx.k != pvUnknown {
+				return pval{k: pvUnknown, s: "absent"}
+			}
+		}
 	case *ast.CallExpr:
+		saved := pi.wantValue
+		pi.wantValue = true
 		rs := pi.call(info, x, env)
+		pi.wantValue = saved
 		if len(rs) > 0 {
 			return rs[0]
 		}
@@ -259,6 +360,162 @@ func (pi *pinterp) eval(info *types.Info, e ast.Expr, env *penv) pval {
 		return pi.eval(info, x.X, env)
 	}
 	return pval{}
+}
+
+// global: the value of a package-level variable initialised once with a literal (a lookup table).
+func (pi *pinterp) global(o *types.Var) pval {
+	if pi.globals == nil {
+		pi.globals = map[types.Object]pval{}
+	}
+	if v, ok := pi.globals[o]; ok {
+		return v
+	}
+	pi.globals[o] = pval{}
+	p := pi.c.PkgOf(o.Pkg())
+	if p == nil {
+		return pval{}
+	}
+	var init ast.Expr
+	n := 0
+	for _, f := range p.Syntax {
+		for _, dd := range f.Decls {
+			gd, ok := dd.(*ast.GenDecl)
+			if !ok || gd.Tok != token.VAR {
+				continue
+			}
+			for _, sp := range gd.Specs {
+				vs := sp.(*ast.ValueSpec)
+				for i, nm := range vs.Names {
+					if p.TypesInfo.Defs[nm] == types.Object(o) {
+						n++
+						if i < len(vs.Values) {
+							init = vs.Values[i]
+						}
+					}
+				}
+			}
+		}
+	}
+	if n != 1 || init == nil {
+		return pval{}
+	}
+	v := pi.eval(p.TypesInfo, init, &penv{vars: map[types.Object]pval{}})
+	pi.globals[o] = v
+	return v
+}
+
+// composite evaluates a composite literal of a slice, array, struct or map type.
+func (pi *pinterp) composite(info *types.Info, cl *ast.CompositeLit, t types.Type, env *penv) pval {
+	if t == nil {
+		return pval{}
+	}
+	elemOf := func(e ast.Expr, et types.Type) pval {
+		if inner, ok := e.(*ast.CompositeLit); ok {
+			it := info.TypeOf(inner)
+			if it == nil {
+				it = et
+			}
+			return pi.composite(info, inner, it, env)
+		}
+		return pi.eval(info, e, env)
+	}
+	switch ut := t.Underlying().(type) {
+	case *types.Slice, *types.Array:
+		var et types.Type
+		if sl, ok := ut.(*types.Slice); ok {
+			et = sl.Elem()
+		} else {
+			et = ut.(*types.Array).Elem()
+		}
+		out := pval{k: pvList}
+		next := 0
+		for _, e := range cl.Elts {
+			if kv, ok := e.(*ast.KeyValueExpr); ok {
+				// `[...]T{K: v}`: the element at index K
+				kvl := pi.eval(info, kv.Key, env)
+				if kvl.k != pvInt && kvl.k != pvOp {
+					return pval{}
+				}
+				next = int(kvl.n)
+				e = kv.Value
+			}
+			if next < 0 || next > 4096 {
+				return pval{}
+			}
+			for len(out.list) <= next {
+				out.list = append(out.list, pval{})
+			}
+			out.list[next] = elemOf(e, et)
+			next++
+		}
+		return out
+	case *types.Struct:
+		out := pval{k: pvStruct, fields: map[string]pval{}}
+		for i, e := range cl.Elts {
+			if kv, ok := e.(*ast.KeyValueExpr); ok {
+				if id, ok := kv.Key.(*ast.Ident); ok {
+					for j := 0; j < ut.NumFields(); j++ {
+						if ut.Field(j).Name() == id.Name {
+							out.fields[id.Name] = elemOf(kv.Value, ut.Field(j).Type())
+						}
+					}
+				}
+			} else if i < ut.NumFields() {
+				out.fields[ut.Field(i).Name()] = elemOf(e, ut.Field(i).Type())
+			}
+		}
+		return out
+	case *types.Map:
+		out := pval{k: pvMap}
+		for _, e := range cl.Elts {
+			if kv, ok := e.(*ast.KeyValueExpr); ok {
+				out.keys = append(out.keys, pi.eval(info, kv.Key, env))
+				out.list = append(out.list, elemOf(kv.Value, ut.Elem()))
+			}
+		}
+		return out
+	}
+	return pval{}
+}
+
+// sprintf renders a format with the values the domain knows; everything else becomes "?".
+func (pi *pinterp) sprintf(info *types.Info, args []ast.Expr, env *penv) (string, bool) {
+	if len(args) == 0 {
+		return "", false
+	}
+	f := pi.eval(info, args[0], env)
+	if f.k != pvString {
+		return "", false
+	}
+	rest := args[1:]
+	var sb strings.Builder
+	ai := 0
+	for i := 0; i < len(f.s); i++ {
+		ch := f.s[i]
+		if ch != '%' || i+1 >= len(f.s) {
+			sb.WriteByte(ch)
+			continue
+		}
+		i++
+		if f.s[i] == '%' {
+			sb.WriteByte('%')
+			continue
+		}
+		for i < len(f.s) && strings.IndexByte("+-# 0123456789.[]*", f.s[i]) >= 0 {
+			i++
+		}
+		txt := "?"
+		if ai < len(rest) {
+			if v := pi.eval(info, rest[ai], env); v.k == pvString {
+				txt = v.s
+			} else if v.k == pvInt {
+				txt = fmt.Sprint(v.n)
+			}
+		}
+		ai++
+		sb.WriteString(txt)
+	}
+	return sb.String(), true
 }
 
 // call evaluates a call and returns its results (possibly unknown).
@@ -273,7 +530,22 @@ func (pi *pinterp) call(info *types.Info, ce *ast.CallExpr, env *penv) []pval {
 	if id, ok := ast.Unparen(ce.Fun).(*ast.Ident); ok {
 		if v, ok := info.Uses[id].(*types.Var); ok {
 			if cl, ok := env.get(v); ok && cl.k == pvClosure {
+				if cl.lit == nil {
+					// the callback that prints the operand of a conversion
+					pi.events = append(pi.events, "visit:"+cl.s)
+					return nil
+				}
 				return pi.apply(cl.info, cl.lit.Type, cl.lit.Body, cl.env, info, ce.Args, env, nil, pval{})
+			}
+		}
+		if id.Name == "len" && len(ce.Args) == 1 {
+			if _, isB := info.Uses[id].(*types.Builtin); isB {
+				if v := pi.eval(info, ce.Args[0], env); v.k == pvList || v.k == pvMap {
+					return []pval{{k: pvInt, n: int64(len(v.list))}}
+				} else if v.k == pvString {
+					return []pval{{k: pvInt, n: int64(len(v.s))}}
+				}
+				return []pval{{}}
 			}
 		}
 		if id.Name == "panic" {
@@ -287,6 +559,22 @@ func (pi *pinterp) call(info *types.Info, ce *ast.CallExpr, env *penv) []pval {
 	if fl, ok := ast.Unparen(ce.Fun).(*ast.FuncLit); ok {
 		return pi.apply(info, fl.Type, fl.Body, env, info, ce.Args, env, nil, pval{})
 	}
+	if tv, ok := info.Types[ce.Fun]; ok && tv.IsType() && len(ce.Args) == 1 {
+		// a conversion: int(op), dsl.BinaryOperator(i), string(s)
+		v := pi.eval(info, ce.Args[0], env)
+		if b, isBasic := tv.Type.Underlying().(*types.Basic); isBasic {
+			switch {
+			case b.Info()&types.IsInteger != 0 && (v.k == pvInt || v.k == pvOp):
+				if nt := core.NamedOf(tv.Type); nt != nil && nt.Obj().Name() == "BinaryOperator" && v.k == pvOp {
+					return []pval{v}
+				}
+				return []pval{{k: pvInt, n: v.n}}
+			case b.Info()&types.IsString != 0 && v.k == pvString:
+				return []pval{v}
+			}
+		}
+		return []pval{{}}
+	}
 	f := core.Callee(info, ce)
 	if f != nil {
 		full := core.FullName(f)
@@ -297,8 +585,75 @@ func (pi *pinterp) call(info *types.Info, ce *ast.CallExpr, env *penv) []pval {
 			if v.k == pvNode {
 				role = v.s
 			}
+			// a wrapper handed along with the operand (`self.Visit(t.Expression, tail.Append(func(writeOperand func()) {...}))`)
+			// is what prints around it: run it with the callback standing for the operand
+			if role == "operand" && len(ce.Args) > 1 {
+				var lits []*ast.FuncLit
+				for _, a := range ce.Args[1:] {
+					ast.Inspect(a, func(n ast.Node) bool {
+						switch y := n.(type) {
+						case *ast.FuncLit:
+							lits = append(lits, y)
+							return false
+						case *ast.Ident:
+							// a closure kept in a local, or a value that carries one (`tail = tail.Append(func...)`)
+							if vv, ok := info.Uses[y].(*types.Var); ok {
+								if cl, ok := env.get(vv); ok && cl.k == pvClosure && cl.lit != nil {
+									lits = append(lits, cl.lit)
+								}
+							}
+						}
+						return true
+					})
+				}
+				if len(lits) > 0 {
+					for _, fl := range lits {
+						ne := &penv{vars: map[types.Object]pval{}, parent: env}
+						if fl.Type.Params != nil {
+							for _, fld := range fl.Type.Params.List {
+								for _, nm := range fld.Names {
+									if _, isFunc := info.TypeOf(fld.Type).Underlying().(*types.Signature); isFunc {
+										ne.vars[info.Defs[nm]] = pval{k: pvClosure, s: role}
+									} else {
+										ne.vars[info.Defs[nm]] = pval{}
+									}
+								}
+							}
+						}
+						saved := pi.ret
+						pi.ret = nil
+						pi.exec(info, fl.Body.List, ne)
+						pi.ret = saved
+					}
+					return nil
+				}
+			}
 			pi.events = append(pi.events, "visit:"+role)
 			return nil
+		case full == "fmt.Sprintf":
+			if txt, ok := pi.sprintf(info, ce.Args, env); ok {
+				return []pval{{k: pvString, s: txt}}
+			}
+			return []pval{{}}
+		case full == "fmt.Fprintf" && len(ce.Args) >= 2:
+			txt, ok := pi.sprintf(info, ce.Args[1:], env)
+			if !ok {
+				txt = "?"
+			}
+			pi.events = append(pi.events, "emit:"+txt)
+			return nil
+		case f.Name() == "GetKindIfPrimitive" && f.Pkg() != nil && strings.HasSuffix(f.Pkg().Path(), "/pkg/dsl") && len(ce.Args) == 1:
+			if v := pi.eval(info, ce.Args[0], env); v.k == pvType {
+				name := "PrimitiveKindFloatingPoint"
+				if v.s == "int" {
+					name = "PrimitiveKindInteger"
+				}
+				if k, ok := f.Pkg().Scope().Lookup(name).(*types.Const); ok && k.Val().Kind() == constant.Int {
+					n, _ := constant.Int64Val(k.Val())
+					return []pval{{k: pvInt, n: n}, {k: pvBool, b: true}}
+				}
+			}
+			return []pval{{}, {}}
 		case strings.HasSuffix(full, ".WriteString") || strings.HasSuffix(full, ".WriteStringln") || full == "fmt.Fprintf" || full == "fmt.Fprint" || full == "fmt.Fprintln" || strings.HasSuffix(full, "IndentedWriter).Write"):
 			txt := "?"
 			for _, a := range ce.Args {
@@ -348,7 +703,7 @@ func (pi *pinterp) call(info *types.Info, ce *ast.CallExpr, env *penv) []pval {
 				// function literal; anything else (identifier helpers, type syntax, ...) has no effect on the trace
 				relevant := false
 				for _, a := range ce.Args {
-					if v := pi.eval(info, a, env); v.k == pvNode || v.k == pvOp || (v.k == pvBool && len(ce.Args) > 1) {
+					if v := pi.eval(info, a, env); v.k == pvNode || v.k == pvOp || v.k == pvType || (v.k == pvClosure && v.lit == nil) || (v.k == pvBool && len(ce.Args) > 1) {
 						relevant = true
 					}
 				}
@@ -360,6 +715,23 @@ func (pi *pinterp) call(info *types.Info, ce *ast.CallExpr, env *penv) []pval {
 				}
 			}
 		}
+	}
+	// an opaque call whose value is kept (`tail = tail.Append(func(next func()) {...})`): the value carries the literal,
+	// which runs when the value is used
+	if pi.wantValue {
+		for _, a := range ce.Args {
+			if fl, ok := ast.Unparen(a).(*ast.FuncLit); ok {
+				return []pval{{k: pvClosure, lit: fl, env: env, info: info, s: "carried"}}
+			}
+			if id, ok := ast.Unparen(a).(*ast.Ident); ok {
+				if v, ok := info.Uses[id].(*types.Var); ok {
+					if cl, ok := env.get(v); ok && cl.k == pvClosure && cl.lit != nil {
+						return []pval{cl}
+					}
+				}
+			}
+		}
+		return nil
 	}
 	// an opaque call: function literals handed to it are run once, in order (w.Indented(func(){..}), tail.Run(func(){..}))
 	for _, a := range ce.Args {
@@ -414,7 +786,10 @@ func (pi *pinterp) exec(info *types.Info, list []ast.Stmt, env *penv) pctl {
 		switch s := st.(type) {
 		case *ast.ExprStmt:
 			if ce, ok := ast.Unparen(s.X).(*ast.CallExpr); ok {
+				savedWV := pi.wantValue
+				pi.wantValue = false
 				rs := pi.call(info, ce, env)
+				pi.wantValue = savedWV
 				if len(rs) == 1 && rs[0].s == "panic" && rs[0].k == pvUnknown {
 					return ctlReturn
 				}
@@ -426,6 +801,20 @@ func (pi *pinterp) exec(info *types.Info, list []ast.Stmt, env *penv) pctl {
 					okv := pval{}
 					if v.k == pvNode && types.ExprString(ta.Type) == "*dsl.BinaryExpression" {
 						okv = pval{k: pvBool, b: pi.opOf(v.s) != ""}
+					}
+					pi.bind(info, s.Lhs[0], v, env, s.Tok)
+					pi.bind(info, s.Lhs[1], okv, env, s.Tok)
+					continue
+				}
+				if ix, ok := ast.Unparen(s.Rhs[0]).(*ast.IndexExpr); ok {
+					v := pi.eval(info, ix, env)
+					okv := pval{}
+					if base := pi.eval(info, ix.X, env); base.k == pvMap {
+						if v.k == pvUnknown && v.s == "absent" {
+							okv = pval{k: pvBool, b: false}
+						} else if v.k != pvUnknown {
+							okv = pval{k: pvBool, b: true}
+						}
 					}
 					pi.bind(info, s.Lhs[0], v, env, s.Tok)
 					pi.bind(info, s.Lhs[1], okv, env, s.Tok)
@@ -447,6 +836,20 @@ func (pi *pinterp) exec(info *types.Info, list []ast.Stmt, env *penv) pctl {
 				vals := make([]pval, len(s.Rhs))
 				for i, r := range s.Rhs {
 					vals[i] = pi.eval(info, r, env)
+					if s.Tok != token.ASSIGN && s.Tok != token.DEFINE {
+						// x op= y
+						cur := pi.eval(info, s.Lhs[i], env)
+						nv := pval{}
+						switch {
+						case s.Tok == token.ADD_ASSIGN && cur.k == pvInt && vals[i].k == pvInt:
+							nv = pval{k: pvInt, n: cur.n + vals[i].n}
+						case s.Tok == token.SUB_ASSIGN && cur.k == pvInt && vals[i].k == pvInt:
+							nv = pval{k: pvInt, n: cur.n - vals[i].n}
+						case s.Tok == token.ADD_ASSIGN && cur.k == pvString && vals[i].k == pvString:
+							nv = pval{k: pvString, s: cur.s + vals[i].s}
+						}
+						vals[i] = nv
+					}
 				}
 				for i, l := range s.Lhs {
 					pi.bind(info, l, vals[i], env, s.Tok)
@@ -530,7 +933,7 @@ func (pi *pinterp) exec(info *types.Info, list []ast.Stmt, env *penv) pctl {
 						}
 						match = v.b
 					} else {
-						match = v.k == tag.k && v.s == tag.s && v.n == tag.n && v.b == tag.b
+						match = v.same(tag)
 					}
 					if match && chosen == nil {
 						chosen = cc
@@ -542,8 +945,8 @@ func (pi *pinterp) exec(info *types.Info, list []ast.Stmt, env *penv) pctl {
 			}
 			if chosen != nil {
 				ctl := pi.exec(info, chosen.Body, &penv{vars: map[types.Object]pval{}, parent: scope})
-				if ctl == ctlReturn {
-					return ctlReturn
+				if ctl == ctlReturn || ctl == ctlContinue {
+					return ctl
 				}
 			}
 		case *ast.ReturnStmt:
@@ -554,14 +957,87 @@ func (pi *pinterp) exec(info *types.Info, list []ast.Stmt, env *penv) pctl {
 			pi.ret = rs
 			return ctlReturn
 		case *ast.BranchStmt:
-			if s.Tok == token.BREAK {
+			if s.Tok == token.BREAK && s.Label == nil {
 				return ctlBreak
+			}
+			if s.Tok == token.CONTINUE && s.Label == nil {
+				return ctlContinue
 			}
 			pi.fail("branch statement " + s.Tok.String())
 			return ctlReturn
+		case *ast.IncDecStmt:
+			if cur := pi.eval(info, s.X, env); cur.k == pvInt {
+				d := int64(1)
+				if s.Tok == token.DEC {
+					d = -1
+				}
+				pi.bind(info, s.X, pval{k: pvInt, n: cur.n + d}, env, token.ASSIGN)
+			} else {
+				pi.bind(info, s.X, pval{}, env, token.ASSIGN)
+			}
+		case *ast.RangeStmt:
+			// only over a literal table of the package: its rows, in order
+			coll := pi.eval(info, s.X, env)
+			if coll.k != pvList && coll.k != pvMap {
+				pi.fail("range over `" + types.ExprString(s.X) + "` inside the binary-expression case")
+				return ctlReturn
+			}
+			for i := range coll.list {
+				scope := &penv{vars: map[types.Object]pval{}, parent: env}
+				kv := pval{k: pvInt, n: int64(i)}
+				if coll.k == pvMap {
+					kv = coll.keys[i]
+				}
+				if s.Key != nil {
+					pi.bind(info, s.Key, kv, scope, s.Tok)
+				}
+				if s.Value != nil {
+					pi.bind(info, s.Value, coll.list[i], scope, s.Tok)
+				}
+				ctl := pi.exec(info, s.Body.List, scope)
+				if ctl == ctlReturn {
+					return ctlReturn
+				}
+				if ctl == ctlBreak {
+					break
+				}
+			}
+		case *ast.ForStmt:
+			scope := &penv{vars: map[types.Object]pval{}, parent: env}
+			if s.Init != nil {
+				if pi.exec(info, []ast.Stmt{s.Init}, scope) == ctlReturn {
+					return ctlReturn
+				}
+			}
+			for iter := 0; ; iter++ {
+				if iter > 64 {
+					pi.fail("loop without a bound the domain knows")
+					return ctlReturn
+				}
+				if s.Cond != nil {
+					cv := pi.eval(info, s.Cond, scope)
+					if cv.k != pvBool {
+						pi.fail("loop condition `" + types.ExprString(s.Cond) + "`")
+						return ctlReturn
+					}
+					if !cv.b {
+						break
+					}
+				}
+				ctl := pi.exec(info, s.Body.List, &penv{vars: map[types.Object]pval{}, parent: scope})
+				if ctl == ctlReturn {
+					return ctlReturn
+				}
+				if ctl == ctlBreak {
+					break
+				}
+				if s.Post != nil {
+					pi.exec(info, []ast.Stmt{s.Post}, scope)
+				}
+			}
 		case *ast.DeferStmt:
 			// deferred emissions run at the end; the parenthesisation decision does not depend on them
-		case *ast.ForStmt, *ast.RangeStmt, *ast.TypeSwitchStmt, *ast.SelectStmt, *ast.GoStmt:
+		case *ast.TypeSwitchStmt, *ast.SelectStmt, *ast.GoStmt:
 			pi.fail(fmt.Sprintf("%T inside the binary-expression case", s))
 			return ctlReturn
 		}
@@ -587,6 +1063,10 @@ func (pi *pinterp) bind(info *types.Info, l ast.Expr, v pval, env *penv, tok tok
 
 // binaryCaseOf finds the `case *dsl.BinaryExpression:` clause of the emitter and the object bound by the type switch.
 func binaryCaseOf(info *types.Info, d *ast.FuncDecl) (*ast.CaseClause, types.Object) {
+	return caseOfKind(info, d, "*dsl.BinaryExpression")
+}
+
+func caseOfKind(info *types.Info, d *ast.FuncDecl, kind string) (*ast.CaseClause, types.Object) {
 	var cc *ast.CaseClause
 	var obj types.Object
 	ast.Inspect(d.Body, func(n ast.Node) bool {
@@ -596,7 +1076,7 @@ func binaryCaseOf(info *types.Info, d *ast.FuncDecl) (*ast.CaseClause, types.Obj
 		}
 		for _, cl := range ts.Body.List {
 			c := cl.(*ast.CaseClause)
-			if len(c.List) == 1 && types.ExprString(c.List[0]) == "*dsl.BinaryExpression" {
+			if len(c.List) == 1 && types.ExprString(c.List[0]) == kind {
 				cc = c
 				obj = info.Implicits[c]
 			}
@@ -667,6 +1147,157 @@ func parenDecisions(c *core.Ctx, info *types.Info, d *ast.FuncDecl, ops []string
 		}
 	}
 	return out, ""
+}
+
+// tokenDecisions evaluates the binary-expression case with plain (non-binary) operands for every operator and for an
+// integer / non-integer resolved type, and returns the text printed for the operator: what is emitted between the
+// visits of the two operands, or — when that is only a separator (`std::pow(l, r)`) — what is emitted before the left one.
+func tokenDecisions(c *core.Ctx, info *types.Info, d *ast.FuncDecl, ops []string) (map[string]map[string]string, string) {
+	cc, obj := binaryCaseOf(info, d)
+	if cc == nil {
+		return nil, "case *dsl.BinaryExpression not found"
+	}
+	out := map[string]map[string]string{}
+	for _, op := range ops {
+		out[op] = map[string]string{}
+		for _, cls := range []string{"int", "other"} {
+			var toks []string
+			var explore func(choices []bool) string
+			explore = func(choices []bool) string {
+				pi := &pinterp{c: c, scen: pscen{op, "", ""}, choices: choices, resultKind: cls}
+				env := &penv{vars: map[types.Object]pval{}}
+				if obj != nil {
+					env.vars[obj] = pval{k: pvNode, s: "parent"}
+				}
+				pi.exec(info, cc.Body, env)
+				if pi.unknown != "" {
+					return pi.unknown
+				}
+				if pi.asked > len(choices) {
+					for _, b := range []bool{false, true} {
+						if u := explore(append(append([]bool(nil), choices...), b)); u != "" {
+							return u
+						}
+					}
+					return ""
+				}
+				for _, ev := range pi.events {
+					if ev == "panic" {
+						toks = append(toks, "<panic>") // the emitter aborts for this operator
+						return ""
+					}
+				}
+				li, ri := -1, -1
+				for i, ev := range pi.events {
+					if ev == "visit:left" && li < 0 {
+						li = i
+					}
+					if ev == "visit:right" && ri < 0 {
+						ri = i
+					}
+				}
+				if li < 0 || ri < 0 || ri < li {
+					return fmt.Sprintf("operands of %s are not visited left then right (trace %v)", op, pi.events)
+				}
+				text := func(from, to int) string {
+					var sb strings.Builder
+					for _, ev := range pi.events[from:to] {
+						if strings.HasPrefix(ev, "emit:") {
+							sb.WriteString(strings.TrimPrefix(ev, "emit:"))
+						}
+					}
+					return strings.TrimSpace(sb.String())
+				}
+				between := strings.TrimSpace(strings.Trim(text(li+1, ri), "()"))
+				if between == "" || between == "," {
+					between = strings.TrimSpace(strings.TrimLeft(text(0, li), "("))
+					if between == "" {
+						between = text(0, li)
+					}
+				}
+				toks = append(toks, between)
+				return ""
+			}
+			if u := explore(nil); u != "" {
+				return nil, u
+			}
+			toks = uniq(toks)
+			if len(toks) != 1 {
+				return nil, fmt.Sprintf("the text printed for %s depends on a condition the domain does not decide: %v", op, toks)
+			}
+			out[op][cls] = toks[0]
+		}
+	}
+	return out, ""
+}
+
+// conversionWrapped evaluates the `case *dsl.TypeConversionExpression:` clause on every combination of the conditions
+// the domain does not decide: does each path print `<something>(` in front of the operand and `)` behind it?
+// Returns (decided, wrapped on every path, the path that is not).
+func conversionWrapped(c *core.Ctx, info *types.Info, d *ast.FuncDecl) (bool, bool, string) {
+	cc, obj := caseOfKind(info, d, "*dsl.TypeConversionExpression")
+	if cc == nil {
+		return false, false, ""
+	}
+	all := true
+	witness := ""
+	runs := 0
+	var explore func(choices []bool) bool
+	explore = func(choices []bool) bool {
+		pi := &pinterp{c: c, choices: choices}
+		env := &penv{vars: map[types.Object]pval{}}
+		if obj != nil {
+			env.vars[obj] = pval{k: pvNode, s: "parent"}
+		}
+		pi.exec(info, cc.Body, env)
+		if pi.unknown != "" {
+			return false
+		}
+		if pi.asked > len(choices) {
+			for _, b := range []bool{false, true} {
+				if !explore(append(append([]bool(nil), choices...), b)) {
+					return false
+				}
+			}
+			return true
+		}
+		runs++
+		at := -1
+		for i, ev := range pi.events {
+			if ev == "visit:operand" {
+				at = i
+			}
+			if ev == "panic" {
+				return true // an abort is not a path that prints the operand bare
+			}
+		}
+		if at < 0 {
+			all = false
+			witness = fmt.Sprintf("the operand is not printed (trace %v)", pi.events)
+			return true
+		}
+		before, after := "", ""
+		for _, ev := range pi.events[:at] {
+			if strings.HasPrefix(ev, "emit:") {
+				before += strings.TrimPrefix(ev, "emit:")
+			}
+		}
+		for _, ev := range pi.events[at+1:] {
+			if strings.HasPrefix(ev, "emit:") {
+				after += strings.TrimPrefix(ev, "emit:")
+			}
+		}
+		b := strings.TrimSpace(before)
+		if !(strings.HasSuffix(b, "(") && len(b) > 1 && strings.Contains(after, ")")) {
+			all = false
+			witness = fmt.Sprintf("prints `%s` <operand> `%s`", before, after)
+		}
+		return true
+	}
+	if !explore(nil) || runs == 0 {
+		return false, false, ""
+	}
+	return true, all, witness
 }
 
 func sortedScen(m map[pscen]bool) []pscen {
